@@ -90,6 +90,25 @@ Definition check_hcase (ok : nat) (fk fm : list string) (sk sm : nat) (c : hcase
   | _, _ => false
   end.
 
+(* retry loop: attempts as lists of value lists; accepted when the last pair's `goodness`
+   (the duration) is at most the bound *)
+Record rtcase := mkRT {
+  rt_okm : bool; rt_undef : bool; rt_n : nat; rt_tries : nat; rt_bound : Z;
+  rt_attempts : list (list (list Z));
+  rt_arr : option (list (option Z)) }.
+
+Definition check_rtcase (ok : nat) (fk fm : list string) (sk sm : nat) (c : rtcase) : bool :=
+  let fields := if rt_okm c then fm else fk in
+  let stride := if rt_okm c then sm else sk in
+  let acc := fun rs : list resp => match List.rev rs with r :: _ => r "goodness" <=? rt_bound c | [] => false end in
+  let model := retry_run ok fields acc (rt_undef c) (rt_tries c) (repeat None (stride * rt_n c))
+                         (map (map (resp_of fields)) (rt_attempts c)) in
+  match model, rt_arr c with
+  | Some a, Some b => list_eqb oz_eqb a b
+  | None, None => true
+  | _, _ => false
+  end.
+
 Fixpoint failing_from {A} (f : A -> bool) (l : list A) (i : Z) : list Z :=
   match l with
   | [] => []
